@@ -117,12 +117,6 @@ func (c *Config) ReadConfig(configFilePath string, flagSet *pflag.FlagSet, categ
 		if err := bindFlags(flagSet); err != nil {
 			return fmt.Errorf("unable to bind the flags: [%w]", err)
 		}
-
-		var err error
-		clientNetwork, err = c.resolveNetworks(flagSet)
-		if err != nil {
-			return fmt.Errorf("unable to resolve networks: [%w]", err)
-		}
 	}
 
 	// Read configuration from a file if the config file path is set.
@@ -139,6 +133,18 @@ func (c *Config) ReadConfig(configFilePath string, flagSet *pflag.FlagSet, categ
 	// Unmarshal config based on loaded config file and command-line flags.
 	if err := unmarshalConfig(c); err != nil {
 		return fmt.Errorf("unable to unmarshal config: %w", err)
+	}
+
+	// Resolve Ethereum and Bitcoin networks. The networks are selected with the
+	// command-line flags only. This is done after unmarshalling the config so
+	// a `network` entry in the `ethereum` or `bitcoin` section of a config file
+	// cannot make them diverge from the selected network.
+	if flagSet != nil {
+		var err error
+		clientNetwork, err = c.resolveNetworks(flagSet)
+		if err != nil {
+			return fmt.Errorf("unable to resolve networks: [%w]", err)
+		}
 	}
 
 	// Resolve contracts addresses.
